@@ -1042,6 +1042,19 @@ func resourceRoles(P *Program) *bankRoles {
 		}
 	}
 	st := r.entry.Underlying().(*types.Struct)
+	// where usage does not identify a role (the very statement that would is what a faulty edit removed), fall
+	// back to the pinned tree's name for it, if the entry still has a field of that name that no role has taken
+	taken := func(n string) bool { return n == r.array || n == r.cap || n == r.len }
+	for role, pinned := range map[*string]string{&r.array: "array", &r.cap: "cap", &r.len: "len"} {
+		if *role != "" {
+			continue
+		}
+		for i := 0; i < st.NumFields(); i++ {
+			if st.Field(i).Name() == pinned && !taken(pinned) {
+				*role = pinned
+			}
+		}
+	}
 	for i := 0; i < st.NumFields(); i++ {
 		f := st.Field(i)
 		switch {
